@@ -59,6 +59,8 @@ def rule_permutation(ctx):
                 kinds.append("index")
             elif v[0] == "field" and v[-1] == "0" and v[1][0] == "as" and v[1][2] == "Some" and range_from_index(sym, v[1][1]):
                 kinds.append("range")
+            elif v[0] == "field" and v[2:] == ("0", "0") and v[1][0] == "as" and v[1][2] == "Some" and enumerate_skip_from_index(sym, v[1][1]):
+                kinds.append("range")
             else:
                 kinds.append("other:" + expr_str(v)[:60])
         ok = ok1 and kinds and all(k in ("index", "range") for k in kinds)
@@ -143,6 +145,37 @@ def range_from_index(sym, e):
             end_ok = en[0] == "call" and en[1].endswith("Vec::len") and self_field(mir.strip_refs(en[2][0]), "scored_moves")
             return start_ok and end_ok
     return False
+
+
+def enumerate_skip_from_index(sym, e):
+    """e = <Skip<Enumerate<slice::Iter>>>::next(&mut iter) with iter = scored_moves.iter().enumerate().skip(self.index + c):
+    the first component of each item is a position in [index + c, len)."""
+    if not (isinstance(e, tuple) and e[0] == "call" and isinstance(e[1], str) and e[1].endswith("::next")):
+        return False
+    it = e[2][0]
+    for x in walk(it):
+        if isinstance(x, tuple) and x[0] == "var":
+            it = sym.expand_var(x)
+    it = mir.strip_refs(it)
+    if it[0] == "call" and it[1].endswith("IntoIterator>::into_iter"):
+        it = it[2][0]
+    if not (it[0] == "call" and it[1] == "std::iter::Iterator::skip" and len(it[2]) == 2):
+        return False
+    inner, st = it[2]
+    start_ok = self_field(st, "index") or (st[0] == "bin" and st[1].startswith("Add") and self_field(st[2], "index") and st[3][0] == "const" and st[3][1] >= 0)
+    if not (inner[0] == "call" and inner[1] == "std::iter::Iterator::enumerate"):
+        return False
+    src = inner[2][0]
+    if not (src[0] == "call" and src[1] in ("core::slice::<impl [T]>::iter", "core::slice::<impl [T]>::iter_mut")):
+        return False
+    base = src[2][0]
+    while True:
+        base = mir.strip_refs(base)
+        if base[0] == "call" and base[1].endswith("::deref") and len(base[2]) == 1:
+            base = base[2][0]
+            continue
+        break
+    return start_ok and self_field(base, "scored_moves")
 
 
 def rule_noninterference(ctx):
